@@ -252,6 +252,28 @@ def run_containers(task, seed):
             got, ge = None, ex
         o = judge(res, ge, got, exp, case, task)
         res["outcomes"].add(("attr", o))
+    # the same HTTP-date seen again later: the hint is the time until that date *now*
+    for mode in ("header", "attr"):
+        clk = E.Clock()
+        E.set_clock(clk)
+        import datetime as _dt
+        base = _dt.datetime(2030, 1, 1, 0, 0, 0, tzinfo=_dt.UTC)
+        for advance, want in ((0, 90.0), (40, 50.0), (100, 0.0), (0, 90.0)):
+            clk.utcnow = base + _dt.timedelta(seconds=advance)
+            e = Exc429("x")
+            if mode == "header":
+                e.headers = {"Retry-After": D_FUT}
+            else:
+                e.retry_after = D_FUT
+            res["execs"] += 1
+            case = f"date {mode} seen with the clock advanced by {advance}s"
+            res["nontrivial"].add(hash(case))
+            try:
+                got, ge = clf(e), None
+            except Exception as ex:  # noqa: BLE001
+                got, ge = None, ex
+            judge(res, ge, got, ("exact", want), case, task)
+        E.set_clock(E.Clock())
     # not a rate-limit error: never a hint
     e = Exception("x")
     e.status = 503
@@ -271,9 +293,17 @@ def run_end_to_end(task, seed):
     from redress.strategies import retry_after_or
     res = new_result()
     TAU = E.TAU
-    hints = [0, 1, 3, 0.125, 0.375, "2", D_FUT, None]
-    for h, jit, fr, dl, is_async in itertools.product(hints, [0.0, 2 * TAU, -1.0], [0.0, 0.5, 1.0],
-                                                      [None, 2 * TAU, 100.0], [False, True]):
+    import concurrent.futures as _cf
+
+    import redress.policy.runner.sync_core as _sc
+    _sc.ThreadPoolExecutor = _cf.ThreadPoolExecutor   # the real executor (another task may have
+    # installed the owned one in this worker process)
+    hints = [0, 1, 3, 0.125, 0.375, "2", "80", 99.5, D_FUT, None]
+    for h, jit, fr, dl, is_async, at in itertools.product(
+            hints, [0.0, 2 * TAU, -1.0], [0.0, 0.5, 1.0], [None, 2 * TAU, 100.0], [False, True],
+            [None, 30.0]):
+        if at is not None and is_async:
+            continue  # asyncio.wait_for needs an event loop; the sync path shares the delay logic
         clock = E.Clock()
         clock.frac = fr
         E.set_clock(clock)
@@ -295,9 +325,10 @@ def run_end_to_end(task, seed):
             op()
 
         kw = dict(classifier=clf, strategy=retry_after_or(lambda ctx: 9 * TAU, jitter_s=jit),
-                  max_attempts=2, deadline_s=1.0e6 if dl is None else dl, max_unknown_attempts=None)
+                  max_attempts=2, deadline_s=1.0e6 if dl is None else dl, max_unknown_attempts=None,
+                  attempt_timeout_s=at)
         res["execs"] += 1
-        case = f"hint={h!r} jitter={jit} draw={fr} deadline={dl} async={is_async}"
+        case = f"hint={h!r} jitter={jit} draw={fr} deadline={dl} async={is_async} attempt_timeout={at}"
         res["nontrivial"].add(hash(case))
         try:
             if is_async:
@@ -317,7 +348,7 @@ def run_end_to_end(task, seed):
             _viol(res, "c20.end-to-end", f"{case}: expected one backoff sleep, got {sleeps}", task, case)
             continue
         s = sleeps[0]
-        hv = {"2": 2.0, D_FUT: 90.0}.get(h, h) if isinstance(h, str) else h
+        hv = {"2": 2.0, "80": 80.0, D_FUT: 90.0}.get(h, h) if isinstance(h, str) else h
         rem = math.inf if dl is None else dl
         j = max(0.0, jit)
         if hv is None:
